@@ -385,10 +385,17 @@ func (s *sess) open() error {
 		}
 		s.sc = sc
 		s.rawC = newRawPeer(b)
-	case "pipe-both": // library client <-> library server connection over a pipe (client end fault-injecting)
-		a, b := net.Pipe()
-		s.fc = newFaultConn(a)
-		cc, err := client.VerifNewClientConn(s.fc, s.cliCtx, s.creds, primitive.CompressionNone, 64, 16, s.rt, handlers)
+	case "pipe-both", "pipe-both-sfc": // library client <-> library server connection over a pipe; the fault-injecting end is the client's (pipe-both) or the server's (pipe-both-sfc)
+		ca, cb := net.Pipe()
+		var a, b net.Conn = ca, cb
+		if sp.Setup == "pipe-both" {
+			s.fc = newFaultConn(ca)
+			a = s.fc
+		} else {
+			s.fc = newFaultConn(cb)
+			b = s.fc
+		}
+		cc, err := client.VerifNewClientConn(a, s.cliCtx, s.creds, primitive.CompressionNone, 64, 16, s.rt, handlers)
 		if err != nil {
 			return err
 		}
@@ -899,7 +906,7 @@ func (s *sess) armAndTrigger() {
 		}()
 	}
 	// traffic: towards the library end (read faults) or from it (write faults)
-	libIsClient := s.cc != nil && s.fc != nil && sp.Setup != "pipe-server"
+	libIsClient := s.cc != nil && s.fc != nil && sp.Setup != "pipe-server" && sp.Setup != "pipe-both-sfc"
 	if read {
 		// the other end writes a frame; with a synchronous pipe the write may block once the library
 		// end stops reading, so it is done in the background and bounded by a write deadline
@@ -921,6 +928,8 @@ func (s *sess) armAndTrigger() {
 					}
 				} else if s.rawC != nil {
 					_ = s.rawC.write(frame.NewFrame(s.ver, int16(100+k), s.query(77)))
+				} else if s.cc != nil {
+					_ = s.clientSend(fmt.Sprintf("trigger%d", k), s.query(77), false)
 				}
 				time.Sleep(2 * time.Millisecond)
 			}
